@@ -105,7 +105,7 @@ var intPool = []int64{
 }
 var floatPool = []float64{0, 0.5, 0.1, 0.25, 1, 1.5, 2, 3.75, 10, 100.125, 0.001, 1234.5678, 1e6, 1e15, 123456789.125}
 var strPool = []string{"", "a", "b", "ab", "abc", "hello", "Hello World", "x y", "a,b,c", "0", "42", "true", "tab\there", "nl\nline", "q\"uote", "back\\slash", "it's"}
-var uniPool = []string{"é", "ß", "日本", "𝄞", "é", "aé", "ñandú"}
+var uniPool = []string{"é", "ß", "日本", "𝄞", "é", "aé", "ñandú", "e", "\u0301", "\u1100", "\u1161", "a\u030a"} // the last entries compose with a neighbour when concatenated (used only where no reference expectation is needed)
 
 func (g *G) intLit() hs.Expr {
 	if g.c.SmallNums {
